@@ -48,7 +48,7 @@ EXPECTED_PROBES = ['honest_transfer_ok', 'one_byte_fragments', 'header_alone', '
                    'downloader_path', 'big_blob', 'tiny_blob', 'brace_blob', 'wire_headers_checked', 'wire_bodies_checked',
                    'hostile_server_fired', 'hostile_client_fired', 'liar_sent_right_bytes_verified', 'followup_honest_ok',
                    'server_closed_hostile', 'closed_by_idle_timeout', 'closed_immediately', 'request_ended_cancelled',
-                   'unknown_length_request', 'client_data_received_escape', 'server_data_received_escape']
+                   'unknown_length_request', 'client_data_received_escape', 'server_data_received_escape', 'recovered_after_net_fault']
 
 MAX = 2 * 1024 * 1024
 SERVER_CATALOGUE = ['wrong_hash', 'length_short', 'length_long', 'length_zero', 'length_negative', 'length_huge', 'length_string',
@@ -63,7 +63,7 @@ CLIENT_CATALOGUE = ['oversized', 'oversized_with_brace', 'no_brace_trickle', 'in
 
 def gen(run_seed, tier):
     r = stream('C10.gen', run_seed)
-    fam = r.choices(['honest', 'hostile_server', 'hostile_client', 'jsonlike'], [5, 4, 3, 0.6])[0]
+    fam = r.choices(['honest', 'hostile_server', 'hostile_client', 'jsonlike', 'net_faults'], [5, 4, 3, 0.6, 2])[0]
     big = r.random() < (0.06 if tier == 'quick' else 0.15)
 
     def size():
@@ -129,6 +129,14 @@ def gen(run_seed, tier):
                     'start': r.choice([0.0, 0.01, 0.3]), 'gap': 0.0})
         ops.append({'op': 'client', 'id': 1, 'requests': [r.randrange(len(blobs))], 'via': 'request_blob', 'know_length': False,
                     'start': 200.0, 'gap': 0.0})
+    elif fam == 'net_faults':
+        # honest peers, faulty network: the connection is reset or stalls past the timeouts at a seeded point of the
+        # transfer; nothing may be poisoned, and once faults stop the same client must get the blob
+        for c in range(r.choice([1, 1, 2])):
+            ops.append({'op': 'faulty_client', 'id': c, 'blob': r.randrange(len(blobs)), 'know_length': r.random() < 0.5,
+                        'via': r.choice(['request_blob', 'request_blob', 'downloader']),
+                        'faults': [{'kind': r.choice(['reset', 'reset', 'stall', 'server_restart']), 'at': r.random()}
+                                   for _ in range(r.choice([1, 1, 2, 3]))], 'start': r.choice([0.0, 0.01])})
     else:
         blobs[0]['kind'] = 'response_like'
         ops.append({'op': 'client', 'id': 0, 'requests': [0], 'via': 'request_blob', 'know_length': r.random() < 0.5, 'start': 0.0, 'gap': 0.0})
@@ -466,6 +474,129 @@ def execute(scenario, keep_trace=False):
             downloader.close()
         elif protocol is not None:
             protocol.close()
+
+    # ---- honest peers over a faulty network ---------------------------------------------------------
+    class FaultInjector:
+        """resets / stalls the next connection of a client once `after` bytes have reached it"""
+
+        def __init__(self):
+            self.armed = {}          # client ip -> fault dict
+            self.count = {}
+
+        def on_connect(self, ct, st):
+            f = self.armed.pop(ct.sockname[0], None)
+            if f is not None:
+                self.count[ct] = [0, f]
+
+        def on_deliver(self, transport, chunk):
+            rec = self.count.get(transport)
+            if rec is None:
+                return
+            rec[0] += len(chunk)
+            if rec[0] >= rec[1]['after']:
+                del self.count[transport]
+                kind = rec[1]['kind']
+                run.faults['net_' + kind] += 1
+                if kind == 'reset':
+                    loop.call_soon(net.reset, transport)
+                elif kind == 'stall':
+                    transport.pause_reading()
+                    loop.call_later(T['download'] + T['transfer'] + 5.0, transport.resume_reading)
+                elif kind == 'server_restart':
+                    loop.call_soon(restart_server)
+    injector = FaultInjector()
+    net.observers.append(injector)
+
+    def restart_server():
+        node = state['servers'].get(SERVER_IP)
+        if node is None or not node.get('server'):
+            return
+        node['server'].stop_server()
+        for t in list(state['server_transports']):
+            if not t._closed:
+                net.reset(t)
+        server = BlobServer(loop, node['bm'], 'bQEaw42GXsgCAGio1nxFncJSyRmnztSCjP', idle_timeout=T['idle'], transfer_timeout=T['transfer'])
+        server.start_server(PORT, SERVER_IP)
+        node['server'] = server
+
+    async def faulty_client(op):
+        cid = op['id']
+        node = state['clients'].get(cid)
+        if node is None:
+            node = state['clients'][cid] = await make_node(f'c{cid}')
+        client_ip = f'9.8.7.{10 + cid}'
+        bm = node['bm']
+        bi = op['blob'] % len(hashes)
+        h, content = hashes[bi], blobs[bi]
+        length = len(content) if op.get('know_length') else None
+        if op.get('start'):
+            await asyncio.sleep(op['start'])
+
+        async def attempt(budget):
+            net.cfg['client_ip'] = client_ip
+            if op.get('via') == 'downloader':
+                q = asyncio.Queue()
+                dl = BlobDownloader(loop, node['conf'], bm, q)
+                q.put_nowait([make_kademlia_peer(None, SERVER_IP, tcp_port=PORT)])
+                try:
+                    await asyncio.wait_for(dl.download_blob(h, length), budget)
+                except asyncio.TimeoutError:
+                    pass
+                finally:
+                    dl.close()
+            else:
+                blob = bm.get_blob(h, length)
+                task = loop.create_task(request_blob(loop, blob, SERVER_IP, PORT, T['connect'], T['download']))
+                done, _ = await asyncio.wait([task], timeout=budget)
+                if not done:
+                    task.cancel()
+                    run.violation('C10.request_never_ended', f'request_blob over a faulted connection was still pending after '
+                                  f'{budget:.0f}s', behaviour='net_fault')
+                    return False
+                if not task.cancelled() and task.exception() is not None:
+                    e = task.exception()
+                    run.violation('C10.request_raised', f'request_blob over a faulted connection raised {type(e).__name__}: {e}',
+                                  behaviour='net_fault', exc=type(e).__name__)
+                    return False
+                if not task.cancelled() and task.result()[1] is not None:
+                    task.result()[1].close()
+            return True
+
+        bound = T['connect'] + 2 * T['download'] + T['transfer'] + 10.0
+        for f in op.get('faults', []):
+            if run.violations:
+                return
+            blob = bm.blobs.get(h)
+            if blob is not None and blob.get_is_verified():
+                break
+            injector.armed[client_ip] = {'kind': f['kind'], 'after': max(1, int(f.get('at', 0.5) * (len(content) + 300)))}
+            state['judged'] += 1
+            if not await attempt(bound + 120):
+                return
+            injector.armed.pop(client_ip, None)
+            await asyncio.sleep(0.3)
+            run.ev('faulted_attempt', cid, f['kind'], bool(bm.blobs.get(h) and bm.blobs[h].get_is_verified()))
+            if not check_poison(node, h, 'net_fault'):
+                return
+        # faults have stopped: the blob must now arrive (a couple of attempts: bans / closed keep-alive connections
+        # of the previous attempt may cost one)
+        await asyncio.sleep(T['idle'] + 2.0)
+        for _try in range(3):
+            blob = bm.blobs.get(h)
+            if blob is not None and blob.get_is_verified():
+                break
+            if not await attempt(bound + 120):
+                return
+            await asyncio.sleep(1.0)
+        blob = bm.blobs.get(h)
+        data = file_state(node, h)
+        if blob is None or not blob.get_is_verified() or data != content:
+            run.violation('C10.no_recovery_after_fault', f'after the network faults {[f["kind"] for f in op.get("faults", [])]} stopped, '
+                          f'three further attempts by client {cid} did not obtain the blob of {len(content)} bytes the server '
+                          f'holds (verified={bool(blob and blob.get_is_verified())}, file={"none" if data is None else len(data)})',
+                          via=op.get('via'))
+            return
+        run.probes['recovered_after_net_fault'] += 1
 
     # ---- scripted hostile server -------------------------------------------------------------------
     class HostileServer(asyncio.Protocol):
@@ -820,6 +951,8 @@ def execute(scenario, keep_trace=False):
                     tasks.append(loop.create_task(honest_client(op)))
                 elif op['op'] == 'hostile_client':
                     tasks.append(loop.create_task(hostile_client_session(op)))
+                elif op['op'] == 'faulty_client':
+                    tasks.append(loop.create_task(faulty_client(op)))
             if tasks:
                 done, pending = await asyncio.wait(tasks, timeout=3000)
                 for t in done:
